@@ -33,6 +33,7 @@ import (
 	"os"
 	"path/filepath"
 	"sort"
+	"strconv"
 	"strings"
 
 	"github.com/jessevdk/go-flags"
@@ -188,10 +189,16 @@ func findGoFiles(cwd, path string) (_ []sourcePath, err error) {
 }
 
 func findFiles(cwd string, patterns []string) (_ []sourcePath, err error) {
-	// Files are identified by their path with symbolic links resolved:
-	// the same file may be reachable under several names when a pattern
-	// (or the working directory) passes through a symlinked directory,
-	// and it must still be patched only once.
+	// The same file may be reachable under several names when a pattern (or
+	// the working directory) passes through a symlinked directory, and it
+	// must still be patched only once. A file is therefore identified by the
+	// directory it lives in and its name there: two paths name the same file
+	// if they end in the same name and their directories are the same
+	// directory. (Resolving the symbolic links in the path instead does not
+	// work for directories whose resolved path is longer than the system
+	// allows, and hard links are different files for our purposes.)
+	var dirs []os.FileInfo        // the distinct directories seen so far
+	dirOf := make(map[string]int) // directory path -> its index in dirs
 	files := make(map[string]sourcePath)
 
 	for _, pat := range patterns {
@@ -202,9 +209,28 @@ func findFiles(cwd string, patterns []string) (_ []sourcePath, err error) {
 		}
 
 		for _, f := range fs {
+			dir, name := filepath.Split(f.Absolute)
+			id, seen := dirOf[dir]
+			if !seen {
+				id = -1
+				if info, statErr := os.Stat(dir); statErr == nil {
+					for i, known := range dirs {
+						if os.SameFile(known, info) {
+							id = i
+							break
+						}
+					}
+					if id < 0 {
+						dirs = append(dirs, info)
+						id = len(dirs) - 1
+					}
+				}
+				dirOf[dir] = id
+			}
+
 			key := f.Absolute
-			if resolved, err := filepath.EvalSymlinks(key); err == nil {
-				key = resolved
+			if id >= 0 {
+				key = strconv.Itoa(id) + "/" + name
 			}
 			if old, ok := files[key]; ok && old.Absolute < f.Absolute {
 				// Keep one name per file, always the same one
@@ -215,16 +241,13 @@ func findFiles(cwd string, patterns []string) (_ []sourcePath, err error) {
 		}
 	}
 
-	keys := make([]string, 0, len(files))
-	for key := range files {
-		keys = append(keys, key)
-	}
-	sort.Strings(keys)
-
 	sortedPaths := make([]sourcePath, 0, len(files))
-	for _, key := range keys {
-		sortedPaths = append(sortedPaths, files[key])
+	for _, p := range files {
+		sortedPaths = append(sortedPaths, p)
 	}
+	sort.Slice(sortedPaths, func(i, j int) bool {
+		return sortedPaths[i].Absolute < sortedPaths[j].Absolute
+	})
 
 	return sortedPaths, err
 }
